@@ -359,7 +359,7 @@ def norm_sem(u: dict) -> dict:
 def run(ctx: Ctx) -> None:
     rng = ctx.rng
     quick = ctx.tier == 'quick'
-    per_shape = 800 if quick else 8000
+    per_shape = 2000 if quick else 8000
     shapes = SHAPES_QUICK if quick else SHAPES_QUICK + SHAPES_MORE
     ctx.rule = (
         'UPDATE bodies made by the Lean reference encoder from structurally generated UpdateSem values (every recognised attribute kind, any order, extended-length flag on short attributes, partial bit, unknown attributes, '
